@@ -302,6 +302,22 @@ def Expr.supported : Expr → Bool
 
 def keepRow (f : Expr) (r : Row) : Bool := evalPred f r == some true
 
+/-- what a key range MEANS (SQL comparison: integers by value whatever their width, NULL never
+in range) - as opposed to `inRange`, what the row-set iterator computes with `DataValue::cmp`. -/
+def sqlLower (lo : Bnd) (v : Val) : Bool :=
+  match lo with
+  | .unb => true
+  | .incl k => (sqlCmp v k).map (CmpOp.holds .ge) == some true
+  | .excl k => (sqlCmp v k).map (CmpOp.holds .gt) == some true
+
+def sqlUpper (hi : Bnd) (v : Val) : Bool :=
+  match hi with
+  | .unb => true
+  | .incl k => (sqlCmp v k).map (CmpOp.holds .le) == some true
+  | .excl k => (sqlCmp v k).map (CmpOp.holds .lt) == some true
+
+def sqlInRange (r : KeyRange) (v : Val) : Bool := sqlLower r.lo v && sqlUpper r.hi v
+
 /-! ## start_rowid and the row-set iterator -/
 
 /-- little-endian i32 read of the first 4 bytes -/
@@ -367,7 +383,11 @@ def splitBatches {α} (cuts : List Nat) : Nat → Nat → List α → List (List
       let n := nextCut - pos
       xs.take n :: splitBatches cuts fuel (pos + n) (xs.drop n)
 
-def firstIdx {α} (p : α → Bool) (l : List α) : Nat := (l.findIdx? p).getD l.length
+/-- `(0..len).position(|idx| p(array.get(idx))).unwrap_or(len)` -/
+def firstIdx {α} (p : α → Bool) (l : List α) : Nat := (l.takeWhile fun x => !p x).length
+
+/-- the rows at positions `lo ≤ i < hi` of a batch (the bitmap `(start..end).contains(i)`) -/
+def sliceRange {α} (lo hi : Nat) (b : List α) : List α := (b.take hi).drop lo
 
 /-- rowset_iterator.rs next_batch_inner over successive batches of (row, live) pairs.
 `fc` = the FIRST column of the scan list (the range mask is computed from it whatever the key). -/
@@ -381,8 +401,34 @@ def scanBatches (fc : Nat) (r : Option KeyRange) : List (List (Row × Bool)) →
       | some rg =>
         let lo := firstIdx (fun x => lowerOk rg.lo (Row.at x.1 fc)) b
         let hi := firstIdx (fun x => upperBad rg.hi (Row.at x.1 fc)) b
-        let out := liveRows (((b.zipIdx).filter fun (_, i) => lo ≤ i && i < hi).map (·.1))
+        let out := liveRows (sliceRange lo hi b)
         if hi = 0 then out else out ++ scanBatches fc r bs
+
+/-! Hypotheses under which the range scan of one row-set is exact (each is forced by the code;
+`Thm/C13.lean` refutes the statement with any one of them dropped). -/
+
+/-- an INT value (payload within i32) -/
+def isI32Val : Val → Bool
+  | .i32 v => decide (-2147483648 ≤ v) && decide (v < 2147483648)
+  | _ => false
+
+/-- every stored key is an INT -/
+def keysI32 (rs : RowSet) (k : Nat) : Bool := rs.rows.all fun row => isI32Val (Row.at row k)
+
+def bndI32 : Bnd → Bool
+  | .unb => true
+  | .incl v => isI32Val v
+  | .excl v => isI32Val v
+
+/-- the block index of column 0 only refers to stored rows -/
+def blocksOk (rs : RowSet) : Bool := (blockStarts (rs.blocks.getD 0 [])).all fun s => decide (s < rs.rows.length)
+
+/-- no block of column 0 starts with the Included begin key while an earlier row has that key too -/
+def boundaryOk (rs : RowSet) (k : Nat) (r : KeyRange) : Bool :=
+  match r.lo with
+  | .incl b => (blockStarts (rs.blocks.getD 0 [])).all fun s =>
+      decide (Row.at (rs.rows.getD s []) k ≠ b) || (rs.rows.take s).all fun row => decide (Row.at row k ≠ b)
+  | _ => true
 
 /-- One row-set read by RowSetIterator: seek to start_rowid, then batches. -/
 def scanRowSet (rs : RowSet) (cols : List Nat) (r : Option KeyRange) : Out (List Row) :=
